@@ -606,7 +606,17 @@ def app_case(res, W, appsim, data, frags, cont_cb, skip, valid, cls):
         if skip:
             return  # with validation off the application gets bytes or str depending on the path: not part of the statement
         if cont_cb and not whole:
-            # per-fragment delivery: the fragments arrive one by one (text fragments as they are)
+            # per-fragment delivery: the fragments arrive one by one (how each is typed is that mode's business); what the statement
+            # does say is that a code point split across fragments is accepted - the message must not be answered with an error and
+            # the connection must go on to the next message
+            etypes = [type(e).__name__ for e in errors]
+            if errors or "after" not in msgs:
+                res.violation("recv-mismatch", f"app path, per-fragment mode (on_cont_message): well-formed text {data.hex()} ({cls}) in fragments {case['frags']} was answered "
+                              f"with errors {etypes} and the following message {'was' if 'after' in msgs else 'was not'} delivered", case, input_class=cls, skip=skip,
+                              path="app-cont-mode", outcome="not-delivered", exc_type=etypes[0] if etypes else None,
+                              split_inside_character=any(not U.is_valid(f) for f in frags))
+            else:
+                res.count("app_cont_mode_fragmented_accepted")
             return
         if data.decode("utf-8") not in msgs:
             res.violation("recv-mismatch", f"app path: well-formed text {data.hex()} ({cls}) frags={case['frags']} on_cont_message={cont_cb}: on_message got {msgs!r}, errors {errors!r}",
